@@ -202,7 +202,9 @@ func c07SetSourceOrder(c *Ctx) {
 	okNil := true
 	for _, r := range returnsOf(ss) {
 		rv := retVals(r)
-		if isNilConst(rv[0]) && !(knownNil(r.Block(), reportCall, true) && domI(reportCall, r)) {
+		// (the report's result known nil here: a test of that result lies on every path to this return, so the report
+		// has run - it need not dominate the return when it sits in a folded helper whose error outcome returns early)
+		if isNilConst(rv[0]) && !knownNil(r.Block(), reportCall, true) {
 			okNil = false
 			c.bad("setsource-order", name+"#nil-after-report", r.Pos(), "SetSource returns nil without the blocking report having returned nil")
 		}
@@ -210,7 +212,7 @@ func c07SetSourceOrder(c *Ctx) {
 	if okNil {
 		c.ok("setsource-order", name+"#nil-after-report", ss.Pos(), "nil is returned only after the blocking report returned nil")
 	}
-	c.check(domI(reportCall, watchCall) && knownNil(watchCall.Block(), reportCall, true), "setsource-order", name+"#watch-after-report", watchCall.Pos(),
+	c.check(knownNil(watchCall.Block(), reportCall, true), "setsource-order", name+"#watch-after-report", watchCall.Pos(),
 		"the inner Watch is started only after the value was stacked", "the inner Watch is started before the value was stacked")
 }
 
